@@ -54,6 +54,10 @@ type Script struct {
 	// TE: the request's TransferEncoding field is set ("chunked"), whatever its length declaration says: the answer is a
 	// matter of the declared length and of the stream. (r8)
 	TE bool `json:"te,omitempty"`
+	// ErrKind (Term "err"): the error value: "" an error of the stream's own, "unexpected-eof", "closed-pipe" (r9)
+	ErrKind string `json:"err_kind,omitempty"`
+	// ZeroAs (CL "zero"): how the zero is spelled in the header: "" = "0", else "00", "000" (1*DIGIT admits them) (r9)
+	ZeroAs string `json:"zero_as,omitempty"`
 }
 
 var leads = map[string][]byte{"bom": {0xEF, 0xBB, 0xBF}, "bom16": {0xFF, 0xFE}, "crlf": {'\r', '\n'}, "lf": {'\n'}, "blank": {' '}, "nul": {0}, "gzip": {0x1F, 0x8B}}
@@ -91,6 +95,12 @@ func (s Script) bytes() []byte {
 
 func (s Script) term() error {
 	if s.Term == "err" {
+		switch s.ErrKind {
+		case "unexpected-eof":
+			return io.ErrUnexpectedEOF // what net/http reports for a truncated upload
+		case "closed-pipe":
+			return io.ErrClosedPipe
+		}
 		return errScripted
 	}
 	return io.EOF
@@ -256,6 +266,9 @@ func Check(c Case) *kit.Violation {
 	case "zero":
 		req.ContentLength = 0
 		req.Header.Set("Content-Length", "0")
+		if sc.ZeroAs == "00" || sc.ZeroAs == "000" {
+			req.Header.Set("Content-Length", sc.ZeroAs)
+		}
 	case "pos":
 		req.ContentLength = int64(sc.CLVal)
 		req.Header.Set("Content-Length", strconv.Itoa(sc.CLVal))
@@ -473,6 +486,9 @@ func genScript(t *rapid.T) Script {
 	s.CL = rapid.SampledFrom([]string{"absent", "absent", "absent", "absent0", "absent0", "zero", "pos", "posfield"}).Draw(t, "cl")
 	s.Method = rapid.SampledFrom([]string{"", "", "", "GET", "get", "HEAD", "DELETE", "OPTIONS", "PUT"}).Draw(t, "method")
 	s.TE = rapid.IntRange(0, 3).Draw(t, "transfer-encoding-field") == 0
+	if s.CL == "zero" {
+		s.ZeroAs = rapid.SampledFrom([]string{"", "", "00", "000"}).Draw(t, "zero-spelling")
+	}
 	s.Lead = rapid.SampledFrom([]string{"", "", "", "bom", "bom", "bom16", "crlf", "lf", "blank", "nul", "gzip"}).Draw(t, "lead")
 	if s.Body == "script" {
 		if rapid.IntRange(0, 3).Draw(t, "anylen") == 0 {
@@ -494,6 +510,9 @@ func genScript(t *rapid.T) Script {
 			s.Chunks = append(s.Chunks, rapid.SampledFrom([]int{1, 3, 4096}).Draw(t, "chunkNZ"))
 		}
 		s.Term = rapid.SampledFrom([]string{"eof", "eof", "err"}).Draw(t, "term")
+		if s.Term == "err" {
+			s.ErrKind = rapid.SampledFrom([]string{"", "", "unexpected-eof", "closed-pipe"}).Draw(t, "err-kind")
+		}
 		s.EOFWith = rapid.Bool().Draw(t, "eofWith")
 		s.CloseErr = rapid.IntRange(0, 3).Draw(t, "closeErr") == 0
 	}
@@ -619,6 +638,12 @@ func Classify(c Case) (bool, []string) {
 	labels := []string{"body=" + s.Body, "cl=" + s.CL}
 	if s.TE {
 		labels = append(labels, "TransferEncoding field set, cl="+s.CL)
+	}
+	if s.CL == "zero" && s.ZeroAs != "" {
+		labels = append(labels, "declared zero spelled "+s.ZeroAs)
+	}
+	if s.Body == "script" && s.Term == "err" && s.ErrKind != "" {
+		labels = append(labels, "stream ends with "+s.ErrKind)
 	}
 	if s.Body == "script" {
 		labels = append(labels, "term="+s.Term)
